@@ -45,6 +45,7 @@ type capWrite struct {
 }
 
 func capturedWrites(p *Program, fn *ssa.Function, depth int) []capWrite {
+	computeEntryLocks(p)
 	var out []capWrite
 	held := heldLocks(fn)
 	ForEachInstr(fn, func(ins ssa.Instruction) {
@@ -372,61 +373,81 @@ func ruleGuardedBy(p *Program, r *Report) {
 func ruleCondProtocol(p *Program, r *Report) { ruleCondProtocolNamed(p, r, "R11c") }
 
 func ruleCondProtocolNamed(p *Program, r *Report, ruleName string) {
-	r.Begin(ruleName, "condition-variable protocol: in a function that waits on a sync.Cond in a loop over a guarded map, every write that changes the waited-for state (map update or delete of the same map) is followed on every path to the unlock by a Broadcast/Signal on that condition variable — a waiter is never left sleeping", 2)
+	r.Begin(ruleName, "condition-variable protocol: for every struct that owns a sync.Cond some function waits on, every write anywhere in the module that changes the waited-for state (map update with a non-marker value, or delete, on a map field of that struct) is followed on every path to the function's exit by a Broadcast/Signal on that condition variable — a waiter is never left sleeping", 2)
 	defer r.End()
-	n := 0
+	// structs whose cond is waited on
+	waited := map[string]string{} // struct type -> cond key
 	for _, fn := range p.RepoFns {
-		var waits []*ssa.Call
 		ForEachInstr(fn, func(ins ssa.Instruction) {
 			if c, ok := ins.(*ssa.Call); ok {
-				if op, _, is := lockOp(&c.Call); is && op == "wait" {
-					waits = append(waits, c)
+				if op, key, is := lockOp(&c.Call); is && op == "wait" {
+					if i := strings.LastIndex(key, "."); i > 0 {
+						waited[key[:i]] = key
+						r.Fn(FnName(fn))
+					}
 				}
 			}
 		})
-		if len(waits) == 0 {
-			continue
-		}
-		r.Fn(FnName(fn))
-		fns := append([]*ssa.Function{fn}, Closures(fn)...)
-		for _, f := range fns {
-			ord := 0
-			ForEachInstr(f, func(ins ssa.Instruction) {
-				isWrite := false
-				switch x := ins.(type) {
-				case *ssa.MapUpdate:
-					// storing the nil in-flight marker makes others wait; only filling it releases them
-					isWrite = !IsNilConst(x.Value)
-				case *ssa.Call:
-					if b, ok := x.Call.Value.(*ssa.Builtin); ok && b.Name() == "delete" {
-						isWrite = true
-					}
-				}
-				if !isWrite {
+	}
+	n := 0
+	for _, f := range p.RepoFns {
+		ord := 0
+		var pd *PostDom
+		ForEachInstr(f, func(ins ssa.Instruction) {
+			var mapAddr ssa.Value
+			switch x := ins.(type) {
+			case *ssa.MapUpdate:
+				// storing the nil in-flight marker makes others wait; only filling it releases them
+				if IsNilConst(x.Value) {
 					return
 				}
-				n++
-				ord++
-				// is there a wake on every path from here to a return/unlock? check: a wake call post-dominates this
-				// instruction (in the same function)
-				pd := NewPostDom(f)
-				woken := false
-				ForEachInstr(f, func(i2 ssa.Instruction) {
-					if c, ok := i2.(*ssa.Call); ok {
-						if op, _, is := lockOp(&c.Call); is && op == "wake" {
-							if (i2.Block() == ins.Block() && InstrIndex(i2) > InstrIndex(ins)) || (i2.Block() != ins.Block() && pd.PostDominates(i2.Block(), ins.Block())) {
-								woken = true
-							}
+				if ld, ok := x.Map.(*ssa.UnOp); ok {
+					mapAddr = ld.X
+				}
+			case *ssa.Call:
+				if b, ok := x.Call.Value.(*ssa.Builtin); ok && b.Name() == "delete" {
+					if ld, ok := x.Call.Args[0].(*ssa.UnOp); ok {
+						mapAddr = ld.X
+					}
+				}
+			}
+			if mapAddr == nil {
+				return
+			}
+			cell, _, ok := cellKeyOfAddr(mapAddr)
+			if !ok {
+				return
+			}
+			i := strings.LastIndex(cell, ".")
+			if i < 0 {
+				return
+			}
+			condKey, isWaited := waited[cell[:i]]
+			if !isWaited {
+				return
+			}
+			n++
+			ord++
+			r.Fn(FnName(f))
+			if pd == nil {
+				pd = NewPostDom(f)
+			}
+			woken := false
+			ForEachInstr(f, func(i2 ssa.Instruction) {
+				if c, ok := i2.(*ssa.Call); ok {
+					if op, k2, is := lockOp(&c.Call); is && op == "wake" && k2 == condKey {
+						if (i2.Block() == ins.Block() && InstrIndex(i2) > InstrIndex(ins)) || (i2.Block() != ins.Block() && pd.PostDominates(i2.Block(), ins.Block())) {
+							woken = true
 						}
 					}
-				})
-				key := fmt.Sprintf("wake-after-write@%s~%d", FnName(f), ord)
-				r.Check(woken, key, "a Broadcast/Signal follows on every path", fmt.Sprintf("%s changes the state that waiters of the condition variable are waiting for (in-flight marker) without waking them: a goroutine blocked in Wait sleeps forever", FnName(f)), ins.Pos())
+				}
 			})
-		}
+			key := fmt.Sprintf("wake-after-write@%s~%d", FnName(f), ord)
+			r.Check(woken, key, "a Broadcast/Signal follows on every path", fmt.Sprintf("%s changes the state that waiters of %s are waiting for (%s) without waking them: a goroutine blocked in Wait sleeps forever", FnName(f), condKey, cell), ins.Pos())
+		})
 	}
 	if n == 0 {
-		r.Undecided("sites", "no condition-variable wait loop found (importcache.getOrAdd confirmed by hand)", 0)
+		r.Undecided("sites", "no write to the state guarded by a waited-on condition variable found (the import cache's map is expected)", 0)
 	}
 }
 
